@@ -76,9 +76,5 @@ def _gcxs_axes_nodes(j, acc):
 
 
 def _classify_c06(name, case, msg):
-    # check_compressed_axes compares list(set(axes)) with axes: set iteration order is not sorted once an axis >= 8 is present
-    if name.startswith("expr") and "axes must be sorted without repeats" in msg:
-        axes = _gcxs_axes_nodes(case.get("json"), [])
-        if any(c and max(c) >= 8 and all(c[i] < c[i + 1] for i in range(len(c) - 1)) for c in axes):
-            return "F-gcxs-axes-set-order"
+    # F-gcxs-axes-set-order (check_compressed_axes and axes >= 8) is repaired by /repo cbb2544: no C06 region is left
     return None
